@@ -70,6 +70,8 @@ class State:
         self.enc_calls = 0
         self.transport = None
         self.staged = False  # a staging Vec was flushed to the transport
+        self.header_sink = None  # the staging buffer the header array was written into (at offset 0)
+        self.srp_hl = None
 
 
 class WEval:
@@ -253,6 +255,27 @@ class WEval:
             return self.mcall(n, env, pc, st)
         if t == "tup":
             return ("tuple", [self.ev(x, env, pc, st) for x in n[1]])
+        if t == "for":
+            it = self.ev(n[2], env, pc, st)
+            body = H.strip(n[3])
+            stm = body[1] if H.tag(body) == "block" else None
+            if it[0] == "srphdr" and stm and len(stm) == 1 and body[2] is None and stm[0][0] in ("semi", "expr") and H.tag(H.strip(stm[0][1])) == "asg":
+                a = H.strip(stm[0][1])
+                tgt = H.strip(a[1])
+                pat = n[1]
+                names = [q[1] for q in H.walk(pat) if H.tag(q) == "bind"]
+                rhs = H.strip_refs(H.strip(a[2]))
+                while H.tag(rhs) == "un" and rhs[2] == "Deref":
+                    rhs = H.strip(rhs[4])
+                if H.tag(tgt) == "idx" and len(names) == 2 and H.local_name(H.strip(tgt[4])) == names[0] and H.local_name(rhs) == names[1]:
+                    bn = H.local_name(H.strip_refs(tgt[3]))
+                    if bn in env and env[bn][0] == "vecbuf":
+                        for i in range(it[2]):
+                            env[bn][1][i] = ("srpbyte", i)
+                        st.sf = it[1]
+                        st.srp_hl = it[2]
+                        return ("unit",)
+            raise Unk("for loop")
         if t == "closure":
             return ("closure",)
         if t == "match":
@@ -419,9 +442,15 @@ class WEval:
                 st.staged = True
                 return ("unit",)
             if a[0] == "buf":
-                self.add_written(w, env, ("aff", 0, a[1], "usize"), st)
+                sink = self.add_written(w, env, ("aff", 0, a[1], "usize"), st)
+                if st.header_len is not None:
+                    raise Unk("a second header array is written")
+                before = sink[2][0]
+                if (before[1], before[2]) != (0, a[1]):
+                    raise Unk("header array written at a non-zero offset of the staging buffer")
                 st.header_len = a[1]
                 st.header_bytes = a[2]
+                st.header_sink = sink
                 return ("unit",)
             raise Unk("write_all of a non-array into the staging buffer")
         if nm == "extend_from_slice" and len(mc["args"]) == 1:
@@ -445,6 +474,23 @@ class WEval:
                 st.enc_calls += 1
                 return ("unit",)
             raise Unk("encrypt() on something that is not a header buffer")
+        if nm in ("encrypt_server_header", "encrypt_client_header") and len(mc["args"]) == 2 and path.startswith("wow_srp::"):
+            size = self.ev(mc["args"][0], env, pc, st)
+            if not is_aff(size) or self.ev(recv, env, pc, st) != ("encrypter",):
+                raise Unk("encrypt_*_header arguments")
+            st.enc_calls += 1
+            if "client" in nm:
+                hl = 6
+            elif self.exp == "wrath":
+                hl = 5 if pc.split_at_value(size, 0x8000) else 4  # wow_srp contract: 3-byte size form iff size > 0x7FFF
+            else:
+                hl = 4
+            return ("srphdr", size, hl)
+        if nm in ("iter", "enumerate") and not mc["args"]:
+            x = self.ev(recv, env, pc, st)
+            if x[0] == "srphdr":
+                return x
+            raise Unk(f"method {nm}")
         if nm in ("write_encrypted_server_header", "write_encrypted_client_header") and len(mc["args"]) == 3:
             w = self.resolve_writer(mc["args"][0], env)
             size = self.ev(mc["args"][1], env, pc, st)
@@ -464,6 +510,33 @@ class WEval:
             self.add_written(w, env, ("aff", 0, hl, "usize"), st)
             return ("unit",)
         raise Unk(f"method {nm}")
+
+
+def finalise(st):
+    """fold bytes patched into the staging buffer after the header array was written (`v[0] = s[1]`, or the encrypted header
+    copied over a placeholder) into the header description"""
+    sink = st.header_sink
+    if sink is None or st.header_len is None:
+        return
+    ov = {k: v for k, v in sink[1].items() if isinstance(k, int)}
+    if not ov:
+        return
+    if all(v[0] == "srpbyte" for v in ov.values()):
+        hl = st.srp_hl
+        if sorted(ov) != list(range(hl)) or hl != st.header_len:
+            st.events.append(("placement", f"the encrypted header of {hl} bytes is copied over a placeholder header of {st.header_len} bytes: "
+                              + ("its last byte overwrites the first body byte" if hl > st.header_len else "placeholder bytes stay in the frame")))
+        st.header_bytes = "srp"
+        return
+    if any(v[0] == "srpbyte" for v in ov.values()):
+        st.events.append(("placement", "header bytes are partly encrypted, partly plain"))
+        return
+    if max(ov) >= st.header_len:
+        st.events.append(("placement", f"byte {max(ov)} of the staged frame is overwritten after the {st.header_len}-byte header was written: a body byte is lost"))
+    if isinstance(st.header_bytes, dict):
+        hb = dict(st.header_bytes)
+        hb.update({k: v for k, v in ov.items() if k < st.header_len})
+        st.header_bytes = hb
 
 
 def analyse_writer(g, crate, fn, expansion, direction, bmax):
@@ -489,6 +562,7 @@ def analyse_writer(g, crate, fn, expansion, direction, bmax):
                 ev.ev(H.unwrap_async(fn["hir"]), env, pc, st)
             except Return:
                 pass
+            finalise(st)
             out.append((lo, hi, st, None))
         except Split as s:
             p = s.point
@@ -502,7 +576,7 @@ def analyse_writer(g, crate, fn, expansion, direction, bmax):
         except Unk as e:
             out.append((lo, hi, st, f"shape not recognised — review: {e}"))
             break
-        if len(out) + len(work) > 200:
+        if len(out) + len(work) > 800:
             out.append((lo, hi, None, "too many pieces"))
             break
     return sorted(out, key=lambda x: x[0])
